@@ -60,9 +60,11 @@ def strip_generics(ty):
 
 
 class State:
-    __slots__ = ("store", "conds", "copies", "mention", "deref")
+    __slots__ = ("store", "conds", "copies", "mention", "deref", "rel")
 
-    def __init__(self, store=None, conds=None, copies=None, mention=None, deref=False):
+    def __init__(self, store=None, conds=None, copies=None, mention=None, deref=False, rel=None):
+        # relational facts between two places: set of (op, keyA, keyB) meaning A op B (op in Lt/Le)
+        self.rel = rel if rel is not None else frozenset()
         self.store = store if store is not None else {}
         self.conds = conds if conds is not None else {}
         self.copies = copies if copies is not None else {}
@@ -71,7 +73,7 @@ class State:
         self.deref = deref
 
     def copy(self):
-        return State(dict(self.store), dict(self.conds), dict(self.copies), set(self.mention), self.deref)
+        return State(dict(self.store), dict(self.conds), dict(self.copies), set(self.mention), self.deref, self.rel)
 
 
 def join_states(a, b):
@@ -89,7 +91,7 @@ def join_states(a, b):
             store[k] = v
     conds = {k: v for k, v in a.conds.items() if b.conds.get(k) == v}
     copies = {k: v for k, v in a.copies.items() if b.copies.get(k) == v}
-    return State(store, conds, copies, a.mention | b.mention, a.deref or b.deref)
+    return State(store, conds, copies, a.mention | b.mention, a.deref or b.deref, a.rel & b.rel)
 
 
 def states_equal(a, b):
@@ -359,6 +361,9 @@ class Interp:
         # invalidate conditions/copies mentioning this local
         l = place["l"]
         deref = bool(place["p"]) and place["p"][0] == "*"
+        if st.rel:
+            st.rel = frozenset(f for f in st.rel if f[1][0] != l and f[2][0] != l
+                               and not (deref and (f[1][2] or f[2][2])))
         if (l in st.mention) or (deref and st.deref):
             if st.conds:
                 st.conds = {k: c for k, c in st.conds.items()
@@ -537,6 +542,19 @@ class Interp:
             if ty in ("f32", "f64"):
                 return D.fbinop(op, a, b)
             r = D.binop(op, a, b, ty)
+            if op == "SubWithOverflow" and st.rel and isinstance(r, Agg) and r.f[1] != 0 \
+                    and ty in D.INT_TYPES and not D.INT_TYPES[ty][1]:
+                pa = rv["a"].get("c") or rv["a"].get("m")
+                pb = rv["b"].get("c") or rv["b"].get("m")
+                if pa is not None and pb is not None:
+                    ka = self._origin_key(st, pa)
+                    kb = self._origin_key(st, pb)
+                    if ("Lt", kb, ka) in st.rel or ("Le", kb, ka) in st.rel:
+                        # b <= a is known on this path: the subtraction cannot wrap
+                        lo = 1 if ("Lt", kb, ka) in st.rel else 0
+                        ba, bb_ = D.bounds(a), D.bounds(b)
+                        val = D.norm_rng(max(lo, ba[0] - bb_[1]), ba[1] - bb_[0]) if ba and bb_ else r.f[0]
+                        return Agg((val, 0))
             return r
         if k == "un":
             a = self.operand(st, depth, rv["a"], body, ln)
@@ -685,6 +703,14 @@ class Interp:
             return self.refine_place(st, depth, st.copies[place["l"]], fn, seen)
         return True
 
+    def _origin_key(self, st, place):
+        """canonical key of the place a temporary is a copy of"""
+        seen = 0
+        while not place["p"] and place["l"] in st.copies and seen < 8:
+            place = st.copies[place["l"]]
+            seen += 1
+        return (place["l"], repr(place["p"]), bool(place["p"]) and place["p"][0] == "*")
+
     def refine_bool(self, st, depth, local, truth):
         """refine state knowing that bool local == truth; returns False if infeasible"""
         c = st.conds.get(local)
@@ -732,6 +758,12 @@ class Interp:
                 if not self.refine_place(st, depth, pb, lambda o: D.refine_cmp(o, sop, va) if is_scalar(o) else o):
                     return False
             elif pa is not None and pb is not None and is_scalar(va) and is_scalar(vb):
+                ka = self._origin_key(st, pa)
+                kb = self._origin_key(st, pb)
+                if op in ("Lt", "Le"):
+                    st.rel = st.rel | {(op, ka, kb)}
+                elif op in ("Gt", "Ge"):
+                    st.rel = st.rel | {("Lt" if op == "Gt" else "Le", kb, ka)}
                 # interval refinement between two variables
                 la, ha = D.bounds(va)
                 lb, hb = D.bounds(vb)
@@ -1058,7 +1090,7 @@ class Interp:
                 store[k] = D.widen(old.store[k], v, ty)
             else:
                 store[k] = v
-        return State(store, new.conds, new.copies, set(new.mention), new.deref)
+        return State(store, new.conds, new.copies, set(new.mention), new.deref, new.rel)
 
     def exec_block(self, body, bb, st, depth):
         blk = body.blocks[bb]
